@@ -11,6 +11,7 @@ import (
 	"path/filepath"
 	"sort"
 	"strings"
+	"sync"
 	"testing"
 	"testing/synctest"
 	"time"
@@ -181,7 +182,16 @@ func (Engine) Simplify(sc *kit.Scenario[Config, Op]) []*kit.Scenario[Config, Op]
 type simFace struct {
 	running bool
 	onPkt   func(r enc.ParseReader) error
+	mu      sync.Mutex // Send is reached from the client's run loop and from timer goroutines
 	out     *[][]byte
+}
+
+func (f *simFace) drain() [][]byte {
+	f.mu.Lock()
+	defer f.mu.Unlock()
+	o := *f.out
+	*f.out = nil
+	return o
 }
 
 func (f *simFace) Open() error     { f.running = true; return nil }
@@ -192,6 +202,8 @@ func (f *simFace) SetCallback(onPkt func(r enc.ParseReader) error, onError func(
 	f.onPkt = onPkt
 }
 func (f *simFace) Send(pkt enc.Wire) error {
+	f.mu.Lock()
+	defer f.mu.Unlock()
 	*f.out = append(*f.out, append([]byte(nil), pkt.Join()...))
 	return nil
 }
@@ -452,7 +464,7 @@ func (e Engine) run(ctx *kit.Ctx, sc *kit.Scenario[Config, Op], res *kit.Result,
 			for completions == 0 && now() < deadline {
 				synctest.Wait()
 				// take what both sides sent
-				for _, f := range fromC {
+				for _, f := range fc.drain() {
 					seg, _, _ := segOf(f)
 					a := attempts[seg]
 					attempts[seg]++
@@ -478,8 +490,7 @@ func (e Engine) run(ctx *kit.Ctx, sc *kit.Scenario[Config, Op], res *kit.Result,
 					seq++
 					queue = append(queue, inflight{at: at, seq: seq, toP: true, frame: f})
 				}
-				fromC = fromC[:0]
-				for _, f := range fromP {
+				for _, f := range fp.drain() {
 					seg, _, _ := segOf(f)
 					a := dattempts[seg]
 					dattempts[seg]++
@@ -506,7 +517,6 @@ func (e Engine) run(ctx *kit.Ctx, sc *kit.Scenario[Config, Op], res *kit.Result,
 					seq++
 					queue = append(queue, inflight{at: at, seq: seq, toP: false, frame: f})
 				}
-				fromP = fromP[:0]
 				// deliver everything that is due, in (time, seq) order
 				sort.Slice(queue, func(i, j int) bool {
 					if queue[i].at != queue[j].at {
